@@ -490,6 +490,25 @@ func (f *frame) execBlock(b *ssa.BasicBlock) {
 		}
 	}
 	f.cur = x.vc.Def(fmt.Sprintf("R.%s.b%d", f.fn.Name(), b.Index), "Bool", reach)
+	if f.top {
+		// non-vacuity: the block after a loop must be reachable under the loop's invariants (an
+		// invariant that contradicts the exit condition would make everything after the loop
+		// trivially provable)
+		for _, li := range f.loops {
+			if li.body[b] {
+				continue
+			}
+			for _, p := range b.Preds {
+				// (only the regular exit from the loop header: an early return out of the body may
+				// be genuinely dead code, e.g. the error branch of a call that cannot fail here)
+				if p == li.header {
+					x.vc.AddObl(&Obligation{Name: x.oblName(fmt.Sprintf("cover.loop%d.exit.b%d", li.ordinal, b.Index)), Kind: "cover",
+						Desc: "the code after the loop is reachable under the loop invariants (non-vacuity)", Hyp: "true", Goal: f.cur, Cover: true, Props: x.top.Props})
+					break
+				}
+			}
+		}
+	}
 	if f.top && x.localMode {
 		var cc []string
 		for _, e := range edges {
